@@ -111,6 +111,9 @@ func (w *world) runReflagCell(c cell) {
 
 	// 3. the observer comes back
 	x.runIface(o)
+	if x.decided {
+		w.b.Count("cells_decided", 1)
+	}
 	if w.samples < 1 && x.decided && !x.perm {
 		w.samples++
 		w.b.Sample(map[string]any{"cell": c, "permitted": x.perm, "first_read": string(bytesJoin(first.Bytes[1:])), "target_after": w.audit(x.key)})
